@@ -89,6 +89,35 @@ func (w *World) skipSites(pkgPrefixes ...string) []skipSite {
 					for _, host := range hostParts(w.hostKey(fi.Key)) {
 						var a *Atoms
 						w.withHost(host, func() { a = w.exprAtomsDeep(fi, deciding) })
+						// a conjunct that is the constant false for this host (a flag of the options
+						// struct this caller builds): the skip is never taken on its behalf
+						dead := false
+						var conj func(e ast.Expr)
+						conj = func(e ast.Expr) {
+							e = ast.Unparen(e)
+							if b, ok := e.(*ast.BinaryExpr); ok && b.Op == token.LAND {
+								conj(b.X)
+								conj(b.Y)
+								return
+							}
+							var ca *Atoms
+							w.withHost(host, func() { ca = w.exprAtoms(fi, e) })
+							if len(ca.Fields) == 0 && len(ca.Calls) == 0 && len(ca.Ops) == 0 && ca.Lits["false"] && !ca.Lits["true"] && len(ca.Lits) == 1 {
+								onlyConst := true
+								for id := range ca.Idents {
+									if !strings.HasPrefix(id, "const:") {
+										onlyConst = false
+									}
+								}
+								if onlyConst {
+									dead = true
+								}
+							}
+						}
+						conj(deciding)
+						if dead {
+							continue
+						}
 						cond := skipCondKey(a)
 						base := fmt.Sprintf("%s:range(%s):skip[%s]", host, over, cond)
 						count[base]++
